@@ -112,6 +112,14 @@ impl Watchers {
     pub uninterp spec fn on_take(&self) -> Seq<int>;
     pub uninterp spec fn on_flush(&self) -> Seq<int>;
 
+    // lib.rs:721-726 `Watchers { on_take: Vec::new(), on_flush: Vec::new() }`
+    #[verifier::external_body]
+    pub fn new() -> (r: Self)
+        ensures r.on_take().len() == 0, r.on_flush().len() == 0,
+    {
+        Watchers { on_take: Vec::new(), on_flush: Vec::new() }
+    }
+
     // lib.rs:728-730 `self.on_flush.push(watcher)`
     #[verifier::external_body]
     pub fn push_on_flush(&mut self, watcher: Watcher)
@@ -133,9 +141,41 @@ impl Watchers {
     }
 }
 
+// lib.rs:714-718 `impl Default for Watchers { fn default() -> Self { Watchers::new() } }`
+impl Default for Watchers {
+    #[verifier::external_body]
+    fn default() -> (r: Self)
+        ensures r.on_take().len() == 0, r.on_flush().len() == 0,
+    {
+        Watchers::new()
+    }
+}
+
 //@extract batcher/src/lib.rs / struct Batch
 //@rules R1 R2
 //@end
+
+// The constructors of a batch (real bodies): a fresh batch has no items AND no watchers — so replacing the
+// pending batch by a fresh one is not the same as clearing its channel: the parked watchers are dropped.
+//@extract batcher/src/lib.rs / impl Batch<T> / fn new
+//@rules R1 R2
+//@ret r
+//@sig
+        ensures batch_empty(batch_view(r)),
+//@end
+//@extract batcher/src/lib.rs / impl Default for Batch<T> / fn default
+//@rules R1 R2
+//@ret r
+//@sig
+        ensures batch_empty(batch_view(r)),
+//@end
+
+// std::mem on a batch / its parts (trusted)
+pub assume_specification<T> [core::mem::replace::<T>](dest: &mut T, src: T) -> (r: T)
+    ensures r == *old(dest), *final(dest) == src;
+pub assume_specification<T: Default> [core::mem::take::<T>](dest: &mut T) -> (r: T)
+    ensures r == *old(dest), T::default.ensures((), *final(dest));
+// (`core::mem::swap` already has a vstd specification)
 
 //@extract batcher/src/lib.rs / struct State
 //@rules R1 R2
